@@ -41,7 +41,7 @@ CHECKS = {
                 text="K consecutive reads (6 quick / 12 thorough) of the real AudioReader stack with source length, block, hop and max_read as unbounded integers; all overlap/limiter/recorder combinations and four input kinds.",
                 ref="§5 C10"),
     "C11": dict(level="model_checking", tech="symbolic execution + z3 against a model state; file sources through I/O stubs",
-                text="Buffer source from an arbitrary position through every sequence of K operations (2 quick / 3 thorough) with unbounded arguments; raw/wav/stdin sources through every sequence of 3/5 reads.",
+                text="Buffer source from an arbitrary position through every sequence of K operations (2 quick / 3 thorough) with unbounded arguments; raw/wav/stdin sources through every sequence of 4/5 operations (read, read(None), reopen, redundant open; stdin may deliver short chunks through read1); bit-exact int(rate*ms/1000) lemma by cvc5 for |rate*ms| <= 2^24 (quick) / 2^49 (thorough).",
                 ref="§5 C11"),
     "C12": dict(level="model_checking", tech="symbolic schedules: real worker threads under a baton scheduler, every scheduling decision and time-out forked through the engine within a pre-emption bound; z3 decides input-path feasibility",
                 text="TokenizerWorker + 1-2 recording observers on 3 (quick) / 5 (thorough) windows with symbolic activity; <=2 (3) pre-emptive switches, <=1 (2) spurious time-outs per worker: observers' logs == detections == split(); all threads end; no deadlock.",
